@@ -10,7 +10,14 @@ TRUSTED = ["multiprocessing.Pool / pathos ProcessingPool (assumed contract)"]
 
 
 def tasks(tier):
-    return pool_tasks("C12")
+    # the pool hands the SAME argument objects to several tasks (chunking, in-process pools): the box readers must leave their
+    # argument unchanged (frame obligation of the reader contracts)
+    from props.C01 import Reader
+    rd = [Reader("mp_read_box_index_field", 3, "list2"), Reader("mp_read_box_index_field", 2, "list3"), Reader("mp_read_box_slice_field", 3, "slice:a:b:s"),
+          Reader("mp_read_box_single_field", 3, "int")]
+    for t in rd:
+        t.prop = "C12"
+    return pool_tasks("C12") + rd
 
 
 def canaries(tier):
